@@ -9,7 +9,7 @@ use tower::{Layer, Service};
 use tower_resilience_fallback::{Fallback, FallbackError, FallbackLayer};
 
 pub struct FallbackAd {
-    svc: Option<Fallback<Inner, Req, Resp, IErr>>,
+    svc: Option<Handles<Fallback<Inner, Req, Resp, IErr>>>,
 }
 impl FallbackAd {
     pub fn new() -> Self {
@@ -21,7 +21,7 @@ impl Adapter for FallbackAd {
         "fallback"
     }
     fn gen_cfg(&mut self, rng: &mut Rng, _size: Size) -> Value {
-        json!({"strat": *rng.pick(&["value", "valuefn", "fromerr", "fromreq", "service", "exception"]), "pred": rng.below(2), "bk": *rng.pick(&["ok", "err"]), "ord": rng.below(2)})
+        json!({"hm": rng.below(3), "strat": *rng.pick(&["value", "valuefn", "fromerr", "fromreq", "service", "exception"]), "pred": rng.below(2), "bk": *rng.pick(&["ok", "err"]), "ord": rng.below(2)})
     }
     fn build(&mut self, cfg: &Value, sim: &mut Sim) {
         let vfn = Arc::new(AtomicU64::new(0));
@@ -59,7 +59,7 @@ impl Adapter for FallbackAd {
         if !pred_first && cfg["pred"].as_u64().unwrap() == 1 {
             b = b.handle(|e: &IErr| e.code != 2);
         }
-        self.svc = Some(b.build().layer(Inner::new(&sim.w)));
+        self.svc = Some(Handles::new(b.build().layer(Inner::new(&sim.w)), cfg["hm"].as_u64().unwrap_or(0)));
         sim.obs = Some(Box::new(move || {
             let mut m = Obj::new();
             m.insert("vfn".into(), json!(vfn.load(Ordering::SeqCst)));
@@ -68,11 +68,12 @@ impl Adapter for FallbackAd {
         }));
     }
     fn mk(&mut self, req: &Req) -> CallFut {
-        let mut s = self.svc.as_ref().unwrap().clone();
-        let w = futures::task::noop_waker();
-        let mut cx = std::task::Context::from_waker(&w);
-        let _ = s.poll_ready(&mut cx);
-        let f = s.call(req.clone());
+        let f = self.svc.as_mut().unwrap().with(|s| {
+            let w = futures::task::noop_waker();
+            let mut cx = std::task::Context::from_waker(&w);
+            let _ = s.poll_ready(&mut cx);
+            s.call(req.clone())
+        });
         Box::pin(async move {
             match f.await {
                 Ok(r) => Out::Ok { val: r.serial, req: r.req },
